@@ -30,6 +30,7 @@ func (ex *Exec) fileOf(st *State, name string) (ghostFile, bool) {
 func (ex *Exec) registerStubs() {
 	tt := ex.tt
 	I := ex.intr
+	defer ex.registerLockStubs()
 	I["verif:verifsetfile"] = func(ex *Exec, st *State, _ *ssa.CallCommon, a []Value) []Outcome {
 		name := ex.argStr(st, a[0])
 		nf := map[string]ghostFile{}
@@ -83,10 +84,12 @@ func (ex *Exec) registerStubs() {
 			st.filePos = np
 		}
 		st.filePos[id] = tt.BV(0, 64)
-		if st.fileName == nil {
-			st.fileName = map[int]string{}
+		nn := map[int]string{}
+		for k, v := range st.fileName {
+			nn[k] = v
 		}
-		st.fileName[id] = name
+		nn[id] = name
+		st.fileName = nn
 		return ret1(st, TupleV{Ptr{obj: id}, IfaceV{}})
 	}
 	I["os.IsNotExist"] = func(ex *Exec, st *State, _ *ssa.CallCommon, a []Value) []Outcome {
@@ -155,5 +158,184 @@ func (ex *Exec) installFrameCheck() {
 			where = " at " + ex.pos(ex.cur)
 		}
 		ex.sharedWrites = append(ex.sharedWrites, fmt.Sprintf("store to package-level object %q%s", o.name, where))
+	}
+}
+
+// ---- POSIX record locks and mmap (the unix pager's environment) ----
+//
+// RM-lock: fcntl record locks are owned per process and file. F_SETLK fails
+// with EAGAIN on a conflicting lock of another process; closing ANY descriptor
+// of the file drops every lock the process holds on it; golang.org/x/exp/mmap
+// opens and closes a descriptor of its own. Foreign connections are described
+// by the SQLite lock bytes they hold.
+
+type ownLock struct {
+	start, length int64
+	typ           int // 0 read, 1 write
+}
+
+type lockTable struct {
+	own                                   []ownLock
+	fPending, fReserved, fShared, fExclus bool
+}
+
+const (
+	pendingByte  = 0x40000000
+	reservedByte = pendingByte + 1
+	sharedFirst  = pendingByte + 2
+	sharedSize   = 510
+)
+
+func (st *State) lockTab(name string) lockTable {
+	if st.locks == nil {
+		return lockTable{}
+	}
+	return st.locks[name]
+}
+
+func (st *State) setLockTab(name string, lt lockTable) {
+	n := map[string]lockTable{}
+	for k, v := range st.locks {
+		n[k] = v
+	}
+	n[name] = lt
+	st.locks = n
+}
+
+// foreign locks as byte ranges
+func (lt lockTable) foreign() []ownLock {
+	var r []ownLock
+	if lt.fPending {
+		r = append(r, ownLock{pendingByte, 1, 1})
+	}
+	if lt.fReserved {
+		r = append(r, ownLock{reservedByte, 1, 1})
+	}
+	if lt.fShared {
+		r = append(r, ownLock{sharedFirst, sharedSize, 0})
+	}
+	if lt.fExclus {
+		r = append(r, ownLock{sharedFirst, sharedSize, 1})
+	}
+	return r
+}
+
+func overlaps(a ownLock, start, length int64) bool {
+	return a.start < start+length && start < a.start+a.length
+}
+
+func (ex *Exec) registerLockStubs() {
+	tt := ex.tt
+	I := ex.intr
+	note := "OS stubs: POSIX fcntl record locks (per-process ownership, EAGAIN on foreign conflict, close of any descriptor drops all of the process's locks on the file), x/exp/mmap as a fixed-length shared view of the ghost file taken at open (it opens and closes a descriptor of its own)"
+	I["verif:verifsetforeignlocks"] = func(ex *Exec, st *State, _ *ssa.CallCommon, a []Value) []Outcome {
+		name := ex.argStr(st, a[0])
+		lt := st.lockTab(name)
+		b := func(v Value) bool { t := v.(*Term); return t.IsConst() && t.c != 0 }
+		lt.fPending, lt.fReserved, lt.fShared, lt.fExclus = b(a[1]), b(a[2]), b(a[3]), b(a[4])
+		st.setLockTab(name, lt)
+		return ret1(st, nil)
+	}
+	I["verif:verifownlock"] = func(ex *Exec, st *State, _ *ssa.CallCommon, a []Value) []Outcome {
+		name := ex.argStr(st, a[0])
+		start, length := int64(a[1].(*Term).c), int64(a[2].(*Term).c)
+		res := 0
+		for _, l := range st.lockTab(name).own {
+			if overlaps(l, start, length) {
+				res = l.typ + 1
+			}
+		}
+		return ret1(st, tt.BV(uint64(res), 64))
+	}
+	dropOwn := func(st *State, name string) {
+		lt := st.lockTab(name)
+		if len(lt.own) > 0 {
+			lt.own = nil
+			st.setLockTab(name, lt)
+		}
+	}
+	I["(*os.File).Close"] = func(ex *Exec, st *State, _ *ssa.CallCommon, a []Value) []Outcome {
+		if fp, ok := a[0].(Ptr); ok && fp.obj != 0 {
+			if name, ok := st.fileName[fp.obj]; ok {
+				dropOwn(st, name)
+			}
+		}
+		return ret1(st, IfaceV{})
+	}
+	I["(*os.File).Fd"] = func(ex *Exec, st *State, _ *ssa.CallCommon, a []Value) []Outcome {
+		return ret1(st, tt.BV(uint64(a[0].(Ptr).obj), 64))
+	}
+	I["golang.org/x/exp/mmap.Open"] = func(ex *Exec, st *State, _ *ssa.CallCommon, a []Value) []Outcome {
+		ex.assumes[note] = true
+		name := ex.argStr(st, a[0])
+		f, ok := ex.fileOf(st, name)
+		if !ok || f.mode != 0 {
+			return ret1(st, TupleV{Ptr{}, ex.newError(st, "stub: file does not exist")})
+		}
+		// its own descriptor is opened and closed: the process's locks on the file go
+		dropOwn(st, name)
+		rt := ex.prog.ImportedPackage("golang.org/x/exp/mmap").Type("ReaderAt").Type()
+		data := SliceV{obj: f.content.obj, pre: f.content.pre, off: f.content.off, len: f.length, cap: f.length}
+		id := st.alloc(rt, &StructV{[]Value{data}}, "mmap:"+name)
+		return ret1(st, TupleV{Ptr{obj: id}, IfaceV{}})
+	}
+	I["syscall.Munmap"] = func(ex *Exec, st *State, _ *ssa.CallCommon, a []Value) []Outcome { return ret1(st, IfaceV{}) }
+	I["runtime.SetFinalizer"] = func(ex *Exec, st *State, _ *ssa.CallCommon, a []Value) []Outcome { return ret1(st, nil) }
+	I["golang.org/x/sys/unix.FcntlFlock"] = func(ex *Exec, st *State, _ *ssa.CallCommon, a []Value) []Outcome {
+		ex.assumes[note] = true
+		fd := int(a[0].(*Term).c)
+		name, ok := st.fileName[fd]
+		if !ok {
+			return ret1(st, ex.newError(st, "bad file descriptor"))
+		}
+		cmd := int(a[1].(*Term).c)
+		lp := a[2].(Ptr)
+		lk := ex.load(st, lp).(*StructV)
+		typ := int(sext(lk.f[0].(*Term).c, 16))
+		start, length := int64(lk.f[2].(*Term).c), int64(lk.f[3].(*Term).c)
+		lt := st.lockTab(name)
+		conflict := -1
+		for _, fl := range lt.foreign() {
+			if overlaps(fl, start, length) && (typ == 1 || fl.typ == 1) {
+				conflict = fl.typ
+			}
+		}
+		switch cmd {
+		case 6: // F_SETLK
+			if typ == 2 { // F_UNLCK
+				var keep []ownLock
+				for _, l := range lt.own {
+					if !overlaps(l, start, length) {
+						keep = append(keep, l)
+					}
+				}
+				lt.own = keep
+				st.setLockTab(name, lt)
+				return ret1(st, IfaceV{})
+			}
+			if conflict >= 0 {
+				return ret1(st, ex.newError(st, "resource temporarily unavailable"))
+			}
+			var keep []ownLock
+			for _, l := range lt.own {
+				if !overlaps(l, start, length) {
+					keep = append(keep, l)
+				}
+			}
+			lt.own = append(keep, ownLock{start, length, typ})
+			st.setLockTab(name, lt)
+			return ret1(st, IfaceV{})
+		case 5: // F_GETLK
+			nf := append([]Value(nil), lk.f...)
+			if conflict >= 0 {
+				nf[0] = tt.BV(uint64(conflict), 16)
+			} else {
+				nf[0] = tt.BV(2, 16)
+			}
+			ex.store(st, lp, &StructV{nf})
+			return ret1(st, IfaceV{})
+		}
+		unsup("FcntlFlock cmd %d", cmd)
+		return nil
 	}
 }
